@@ -12,7 +12,7 @@ git -C /repo worktree add -q --detach $wt HEAD || exit 2
 sf=$(cd $wt && go test -vet=off -count=1 ./... 2>&1 | grep -c "^FAIL\|^--- FAIL")
 echo "[$patch] suite failures: $sf"
 for p in "$@"; do
-  o=$(cd /verif && VERIF_REPO=$wt timeout 1500 ./check $p --tier quick 2>&1 | grep -E "^VIOLATION" | head -4)
+  o=$(cd ${VERIFDIR:-/verif} && VERIF_REPO=$wt timeout 1500 ./check $p --tier quick 2>&1 | grep -E "^VIOLATION" | head -4)
   echo "[$patch] check $p: ${o:-silent}"
 done
 git -C /repo worktree remove --force $wt
